@@ -89,16 +89,18 @@ SPEC = {
         "binToks_lexes", "unTok_lexes", "tables_agree", "assoc_agrees", "ternary_level", "unary_tables_agree",
         "glue_prefix_prefix", "glue_postfix_next", "glue_needs_space", "paren_rule_matches_grammar",
         "roundtrip_expr_partial", "roundtrip_subexpr_partial", "roundtrip_comma_positions_partial", "literal_roundtrip_partial", "negative_literals_break",
+        "negative_literal_binds_like_minus", "negative_literal_member_groups", "member_of_int_literal_roundtrips",
         "decimal_roundtrip",
         # full expression language (Model/FormatFull + Model/ParseFull)
         "source_fingerprints", "modifier_tables_agree", "roundtrip_xexpr_partial", "roundtrip_typeid_partial",
-        "sizeof_shift_breaks", "template_arg_shift_breaks", "template_arg_comma_regroups", "template_arg_less_regroups",
-        "less_greater_paren_regroups",
+        "eot_parenthesised_admissible", "eot_parenthesises_from_shift",
+        "sizeof_shift_roundtrips", "template_arg_shift_roundtrips", "template_arg_comma_roundtrips", "template_arg_less_roundtrips",
+        "former_witnesses_wf", "less_greater_paren_regroups",
         # statements and local variable definitions (Model/FormatStmt + Model/ParseStmt)
         "roundtrip_stmt_partial", "roundtrip_block_partial", "roundtrip_decl_partial", "dangling_else_regroups",
-        "attribute_comma_regroups", "for_init_pointer_reads_as_expr",
+        "attribute_comma_roundtrips", "for_init_pointer_reads_as_expr",
         # function and struct definitions (Model/FormatDef + Model/ParseDef)
-        "roundtrip_param_partial", "roundtrip_function_partial", "roundtrip_struct_partial", "default_arg_comma_rejected",
+        "roundtrip_param_partial", "roundtrip_function_partial", "roundtrip_struct_partial", "default_arg_comma_roundtrips",
         # text of integer literals through C10's lexer model
         "literal_roundtrip_int"]] + [
         # "every literal reads back with the same value and type": the reading half is property C10's; its literal
